@@ -1,19 +1,21 @@
 """C07 - concentrated pool bookkeeping always agrees with its positions.
 Spec: spec/CL.tla (pure state transformers + invariants).  Legs: exhaustive TLC on the
-bounded model MCCL; every step of recorded histories of a real pool validated by TraceCL."""
-import json, os, time
+bounded model MCCL; spec->impl replay of one TLC-generated behaviour per transition of bounded
+models on a real pool (state compared after every call, exactly); every step of recorded
+histories of a real pool validated by TraceCL."""
+import concurrent.futures, json, os, shutil, subprocess, time
 import vlib, checks.clcommon as clc
 from vlib import Infra, Violation, log
 
 MANIFEST = {
-    "engine": "tlc+go-harness", "design_ref": "DESIGN.md section 4 (C07)",
-    "technique": "TLA+ spec CL.tla; TLC exhaustive MC of the bookkeeping transformers; recorded histories of the real pool trace-validated by TLC (state re-based each step, invariants in every state)",
-    "text": "CL.tla gives create/withdraw/add/transfer/swap as pure transformers of (positions, initialised ticks, current tick/price/liquidity) and states C07 as invariants (active liquidity = in-range positions, gross/net per tick = boundary sums and no other ticks, price inside the current tick's bucket hence consistent with every position, empty pool has no price, ids/owners/ranges immutable). TLC proves the transformers preserve them on a bounded tick grid; every operation of recorded random histories of a real pool (all spacings, spread factors, prices 1e-11..1e11, crossing swaps both ways, failed ops) must equal the transformer's result on the previously logged state, with the invariants evaluated on every logged state (BigNum).",
-    "note": "Trusted: TLC, BigNum override (differential-tested), harness projection through exported keeper getters (GetPosition, GetAllInitializedTicksForPool, GetUserPositions, pool getters), TickToSqrtPrice for the logged tick prices (its own correctness is C14).",
+    "engine": "tlc+go-harness", "design_ref": "DESIGN.md section 4 (C07), 9.4",
+    "technique": "TLA+ spec CL.tla; TLC exhaustive MC of the bookkeeping transformers; every transition of bounded models (TLC-generated behaviours) executed on a real pool and compared exactly after every call; recorded histories of the real pool trace-validated by TLC (state re-based each step, invariants in every state)",
+    "text": "CL.tla gives create/withdraw/add/transfer/swap as pure transformers of (positions, initialised ticks, current tick/price/liquidity) and states C07 as invariants (active liquidity = in-range positions, gross/net per tick = boundary sums and no other ticks, price inside the current tick's bucket hence consistent with every position, empty pool has no price, ids/owners/ranges immutable). TLC proves the transformers preserve them on a bounded tick grid. Spec->impl: TLC prints one behaviour per transition of bounded models whose swaps are what a price-limited swap of the keeper can do (plus calls the code must refuse); they form a prefix tree that is executed node by node on a real pool (model tick t -> real tick Off + t*K, unit liquidity -> exactly 10^12 by create-and-trim, grid prices -> TickToSqrtPrice / mid-bucket price limits) on up to three tick geometries, and positions, initialised ticks with gross/net, current tick, sqrt price and active liquidity must equal the model state after EVERY call; a deviation is a violation when a clause of C07 evaluated on the real state alone is false. Impl->spec: every operation of recorded random histories of a real pool (all spacings, spread factors, prices 1e-11..1e11, crossing swaps both ways, failed ops) must equal the transformer's result on the previously logged state, with the invariants evaluated on every logged state (BigNum).",
+    "note": "Trusted: TLC, BigNum override (differential-tested), harness projection through exported keeper getters (GetPosition, GetAllInitializedTicksForPool, GetUserPositions, pool getters), TickToSqrtPrice for the logged tick prices (its own correctness is C14). The replay reaches the keeper's unexported price-limited swap (swapOutAmtGivenIn, the body of SwapExactAmountIn) through a one-function file added to the package by a go build overlay; /repo is not edited.",
 }
 BUILD = clc.BUILD
 
-MC_CFG = """SPECIFICATION MCSpec
+CFG = """SPECIFICATION %(spec)s
 CONSTANTS
   NZero = 0
   NAdd <- IntAdd
@@ -22,40 +24,218 @@ CONSTANTS
   MinT <- MinTVal
   MaxT = %(maxt)d
   Liqs = {1, 2}
-  Owners = {1, 2}
+  Owners = {%(owners)s}
+  Creators = {%(owners)s}
   MaxPos = %(maxpos)d
   MaxId = %(maxid)d
-INVARIANTS InvLiq InvTicks InvPrice InvEmpty InvWF
-PROPERTIES ImmutableStep
+VIEW View
+%(tail)s
 CHECK_DEADLOCK FALSE
 """
+MC_TAIL = "INVARIANTS InvLiq InvTicks InvPrice InvEmpty InvWF\nPROPERTIES ImmutableStep"
+GEN_TAIL = "ACTION_CONSTRAINT EmitEdge"
+
+EXPORT_SRC = os.path.join(vlib.HARNESS, "app", "cl", "c07_export.go.src")
+EXPORT_AS = "/repo/x/concentrated-liquidity/zz_verif_c07_export.go"
+
+# what the generated behaviours must have exercised (summed over geometries), else the leg is vacuous
+NEED_OPS = ("create:ok", "withdraw:ok", "add:ok", "transfer:ok", "swap:ok",
+            "swap:refused", "withdraw:refused", "add:refused", "transfer:refused")
+NEED_SITUATIONS = ("swap-down-stops-on-initialised-tick(tick-1)", "swap-up-stops-on-initialised-tick",
+                   "swap-stops-on-uninitialised-tick", "swap-stops-inside-bucket", "swap-crossing>=2",
+                   "swap-jumps-zero-liquidity-gap", "swap-recrosses-start-tick", "swap-passes-tick-just-emptied",
+                   "withdraw-last-in-range-position", "withdraw-last-position(pool-uninitialised)",
+                   "withdraw-deletes-tick-under-the-price", "create-leaves-shared-tick-with-net-zero",
+                   "withdraw-leaves-shared-tick-with-net-zero", "create-reinitialises-emptied-pool",
+                   "create-boundary-on-current-price", "create-first-price-inside-bucket")
+
+
+def build_binary():
+    """harness/app/cl with the export file overlaid into x/concentrated-liquidity (on top of the
+    framework overlay and of a mutant overlay, if any).  Same recorder, plus TestReplay's entry point."""
+    vlib.ensure_harness()
+    base = json.load(open(vlib.overlay_file()))
+    base["Replace"][EXPORT_AS] = EXPORT_SRC
+    os.makedirs(os.path.join(vlib.BUILD, "bin"), exist_ok=True)
+    ov = os.path.join(vlib.BUILD, "overlay.c07.%d.json" % os.getpid())
+    json.dump(base, open(ov, "w"))
+    suffix = ".%d" % os.getpid() if os.environ.get("VERIF_EXTRA_OVERLAY") else ""
+    out = os.path.join(vlib.BUILD, "bin", "cl07" + suffix + ".test")
+    t0 = time.time()
+    try:
+        r = subprocess.run(["go", "test", "-c", "-vet=off", "-tags", "verif", "-overlay", ov, "-o", out, "./app/cl/"],
+                           cwd=vlib.HARNESS, env=vlib.go_env(), capture_output=True, text=True, timeout=1800)
+    except subprocess.TimeoutExpired:
+        raise Infra("go build timed out: ./app/cl/ (C07 overlay)")
+    finally:
+        if os.path.exists(ov):
+            os.remove(ov)
+    if r.returncode != 0:
+        raise Infra("go build failed for ./app/cl/ with the C07 overlay:\n%s" % (r.stdout + r.stderr)[-4000:])
+    log("built cl07 in %.0fs" % (time.time() - t0))
+    return out
+
+
+def replay_plans(quick):
+    """(name, model bounds, tick geometries).  Ownership multiplies the state graph by ~4 without touching the
+    tick bookkeeping, so the tick geometry is explored with one owner and ownership on a smaller grid."""
+    if quick:
+        return [("ticks", dict(maxt=2, maxpos=2, maxid=3, owners="1"), "s100"),
+                ("owners", dict(maxt=1, maxpos=2, maxid=2, owners="1, 2"), "s1neg,s10k30")]
+    # measured on the loaded 16-core box: ~0.3 ms wall per call with 12 processes; (maxpos 3, maxid 4) has 3.2e6
+    # transitions and took 17 min on one geometry alone (passed, 0 deviations) - too long for the tier
+    return [("ticks-3pos", dict(maxt=2, maxpos=3, maxid=3, owners="1"), "s100,s1neg,s10k30"),
+            ("owners", dict(maxt=2, maxpos=2, maxid=3, owners="1, 2"), "s100")]
+
+
+def replay_leg(ctx, binary, cov):
+    q = ctx.quick
+    ctx.leg = "replay"
+    nproc = int(os.environ.get("VERIF_C07_PROCS") or min(vlib.NCPU, 8 if q else 12))   # parallel replay processes
+    tot = {"behaviours": 0, "steps": 0, "compared": 0, "unchecked": 0, "not_reached": 0, "ops": {}, "situations": {},
+           "plans": [], "states": 0, "transitions": 0}
+    mism = []
+    sample = None
+    for name, b, geoms in replay_plans(q):
+        r = vlib.tlc("MCCL.tla", "gen.cfg", workers=min(vlib.NCPU, 8), timeout=3000, heap="12g", tag="C07-gen", keep=True,
+                     cfg_text=CFG % dict(b, spec="GenSpec", tail=GEN_TAIL))
+        vlib.tlc_must_pass(r, "MCCL gen " + name)
+        d = os.path.dirname(r.out)
+        gen = os.path.join(d, "gen.jsonl")
+        n = vlib.extract_gen(r.out, gen)
+        os.remove(r.out)
+        if n == 0:
+            raise Infra("generator %s produced no behaviours" % name)
+        nshard = nproc * (2 if q else 1)
+        t0 = time.time()
+
+        def one(i):
+            out = "%s.result.%d" % (gen, i)
+            vlib.run_test(binary, "TestReplay", {"VERIF_IN": gen, "VERIF_OUT": out, "VERIF_SHARD": "%d/%d" % (i, nshard),
+                                                 "VERIF_GEOMS": geoms, "VERIF_MINT": -1, "VERIF_L0EXP": 12}, timeout=3000)
+            return json.load(open(out))
+
+        with concurrent.futures.ThreadPoolExecutor(max_workers=nproc) as ex:
+            results = list(ex.map(one, range(nshard)))
+        wall = time.time() - t0
+        p = {"name": name, "bounds": b, "geometries": geoms, "model_states": r.distinct, "model_transitions": r.generated,
+             "behaviours": 0, "steps": 0, "tlc_wall_s": round(r.wall, 1), "replay_wall_s": round(wall, 1), "processes": nproc}
+        for res in results:
+            p["behaviours"] += res["behaviours"]
+            p["steps"] += res["steps"]
+            for k in ("compared", "unchecked", "not_reached"):
+                tot[k] += res[k]
+            for k, v in res["ops"].items():
+                tot["ops"][k] = tot["ops"].get(k, 0) + v
+            for k, v in res["stats"].items():
+                tot["situations"][k] = tot["situations"].get(k, 0) + v
+            for m in res["mismatches"]:
+                m["plan"] = name
+                mism.append(m)
+            p["n_mismatches"] = p.get("n_mismatches", 0) + res["n_mismatches"]
+            if sample is None and res.get("sample"):
+                sample = res["sample"]
+        if p["behaviours"] != n:
+            raise Infra("replay %s: %d behaviours generated but %d replayed" % (name, n, p["behaviours"]))
+        tot["behaviours"] += p["behaviours"]
+        tot["steps"] += p["steps"]
+        tot["states"] += r.distinct
+        tot["transitions"] += r.generated
+        tot["plans"].append(p)
+        log("replay %s: %d states / %d transitions of the model; %d behaviours x %s = %d calls on a real pool in %.0fs (%d processes): %d deviations"
+            % (name, r.distinct, r.generated, p["behaviours"], geoms, p["steps"], wall, nproc, p["n_mismatches"]))
+        shutil.rmtree(d, ignore_errors=True)     # (a deviating behaviour is kept in full in the replay file)
+    ctx.params = dict(ctx.params, replay_plans=[(n_, b_, g_) for n_, b_, g_ in replay_plans(q)])
+    if sample:
+        cov["samples"].append({"replayed_behaviour": {k: sample[k] for k in ("geom", "ops", "model_state", "real_state", "ids")}})
+    # verdict: a deviation is a violation when a clause of C07 is false on the REAL state / transition itself
+    viol = [m for m in mism if m["clauses"]]
+    if viol:
+        m = viol[0]
+        clause = m["clauses"][0].split(":")[0]
+        what = ("generated behaviour (plan %s, geometry %s) call %d (%s): the real pool deviates from the specification [%s] and C07 is false on the real state: %s"
+                % (m["plan"], m["geom"], m["step"], m["op"],
+                   "; ".join("%s: model %s, real %s" % (x["field"], x["model"], x["real"]) for x in m["diffs"][:3])[:400], m["clauses"][0]))
+        ctx.finding("replay:%s:%s" % (m["op"], clause), what,
+                    {"mismatch": m, "ops_legend": "kind(1 create 2 withdraw 3 add 4 transfer 5 swap), by, id, lo, hi, dl, s, down, to, ok, nt (spec/mc/MCCL.tla Op)",
+                     "other_mismatches": [{k: x[k] for k in ("plan", "geom", "step", "op", "ops", "kind", "diffs", "clauses")} for x in mism[1:8]],
+                     "n_deviations": sum(p["n_mismatches"] for p in tot["plans"])})
+    rest = [m for m in mism if not m["clauses"]]
+    if rest and not viol:
+        m = rest[0]
+        raise Infra("replay: %d generated behaviours were answered differently by the real pool, but every clause of C07 holds on the "
+                    "real states: the model of an operation (or the harness) needs attention. First: plan %s geometry %s call %d (%s, %s): %s; real error: %s; calls %s"
+                    % (sum(p["n_mismatches"] for p in tot["plans"]), m["plan"], m["geom"], m["step"], m["op"], m["kind"],
+                       "; ".join("%s: model %s, real %s" % (x["field"], x["model"], x["real"]) for x in m["diffs"][:3])[:400],
+                       m["real_err"][:200], json.dumps(m["ops"])))
+    if tot["unchecked"]:
+        raise Infra("replay: %d calls had no expected state (the generated set is not prefix closed)" % tot["unchecked"])
+    sit = {}
+    for k, v in tot["situations"].items():
+        sit[k.split(":", 1)[1]] = sit.get(k.split(":", 1)[1], 0) + v
+    for k in NEED_OPS:
+        if tot["ops"].get(k, 0) == 0:
+            raise Infra("replay: no generated behaviour ends in '%s': the generator does not exercise the property" % k)
+    for k in NEED_SITUATIONS:
+        if sit.get(k, 0) == 0:
+            raise Infra("replay: no generated behaviour exercises '%s'" % k)
+    tot["situations_all_geometries"] = sit
+    return tot
 
 
 def run(ctx):
     q = ctx.quick
+    cov = {"samples": []}
+    # development aid: VERIF_C07_LEGS=replay runs one leg alone (e.g. to see that each binding direction catches
+    # a mutant by itself); the registered check always runs all three
+    legs = os.environ.get("VERIF_C07_LEGS", "mc,replay,trace").split(",")
     ctx.leg = "mc"
-    b = dict(maxt=2, maxpos=2, maxid=3) if q else dict(maxt=2, maxpos=3, maxid=3)
-    r = vlib.tlc("MCCL.tla", "mc.cfg", workers=vlib.NCPU, timeout=2400, heap="12g", tag="C07-mc", cfg_text=MC_CFG % b)
-    vlib.tlc_must_pass(r, "MCCL")
-    log("MC: %d distinct / %d generated states, depth %d, %.0fs" % (r.distinct, r.generated, r.depth, r.wall))
+    states = trans = 0
+    if "mc" in legs:
+        b = dict(maxt=2, maxpos=2, maxid=3, owners="1, 2") if q else dict(maxt=2, maxpos=3, maxid=3, owners="1, 2")
+        r = vlib.tlc("MCCL.tla", "mc.cfg", workers=vlib.NCPU, timeout=2400, heap="12g", tag="C07-mc",
+                     cfg_text=CFG % dict(b, spec="MCSpec", tail=MC_TAIL))
+        vlib.tlc_must_pass(r, "MCCL")
+        log("MC: %d distinct / %d generated states, depth %d, %.0fs" % (r.distinct, r.generated, r.depth, r.wall))
+        states, trans = r.distinct, r.generated
+        cov.update({"mc_states": r.distinct, "mc_transitions": r.generated})
+    binary = build_binary()
+    rep = None
+    if "replay" in legs:
+        rep = replay_leg(ctx, binary, cov)
+        states += rep["states"]
+        trans += rep["transitions"]
+        cov.update({"spec_behaviours_replayed": rep["behaviours"], "replay_steps": rep["steps"], "replay_states_compared": rep["compared"],
+                    "replay_ops": rep["ops"], "replay_situations": rep["situations_all_geometries"],
+                    "replay_situations_by_geometry": rep["situations"], "replay_plans": rep["plans"],
+                    "replay_mapping": "model tick t -> real tick Off + t*K (s100: spacing 100, K 100, Off 0; s1neg: spacing 1, K 1, Off -50000; s10k30: spacing 10, K 30, Off 4000010); "
+                                      "unit liquidity -> exactly 1e12 (create with ample tokens, trim by partial withdrawal in the same transaction); grid point s: even -> "
+                                      "TickToSqrtPrice(tick), odd -> sqrt of the mean of the two tick prices; swaps = swapOutAmtGivenIn with 1e30 in and the grid price as limit"})
+    if "trace" not in legs:
+        return
     ctx.leg = "trace"
     nh, nops = (24, 80) if q else (320, 150)
-    ctx.params = {"histories": nh, "ops": nops}
-    trace = clc.record(ctx, "C07", nh, nops)
+    ctx.params = dict(ctx.params, histories=nh, ops=nops)
+    trace = clc.record(ctx, "C07", nh, nops, binary=binary)
     kinds, samples, n = clc.summarise(trace)
     clc.need(kinds, ["create:ok", "withdraw:ok", "add:ok", "transfer:ok", "swap:ok", "swap:fail", "create:fail",
                      "swap:crossing-initialised-ticks"])
     gen, dist, nlines = vlib.validate_trace("C07", "TraceCL.tla", "TraceCL.cfg", trace, timeout=2400)
     log("validated %d recorded events of %d histories against TraceCL" % (nlines, nh))
-    vlib.write_evidence("C07", ctx.tier, ctx.seed, "model_checking", {
-        "states": r.distinct + dist, "transitions": r.generated + gen, "traces_validated_against_impl": nh,
-        "mc_states": r.distinct, "mc_transitions": r.generated, "recorded_events": nlines, "event_kinds": kinds,
-        "samples": samples, "checker_cmd": "bin/check C07 --tier " + ctx.tier}, time.time() - ctx.t0,
+    cov["samples"] += samples
+    cov.update({"states": states + dist, "transitions": trans + gen,
+                "traces_validated_against_impl": nh + (rep["behaviours"] if rep else 0),
+                "recorded_histories": nh, "recorded_events": nlines, "event_kinds": kinds,
+                "checker_cmd": "bin/check C07 --tier " + ctx.tier})
+    vlib.write_evidence("C07", ctx.tier, ctx.seed, "model_checking", cov, time.time() - ctx.t0,
         ["TLC; BigNum java override (checked against the TLA+ definitions in setup)",
-         "harness projection of pool/positions/ticks through exported keeper getters",
-         "sqrt prices of ticks are taken from TickToSqrtPrice (C14 decides that function)"])
+         "harness projection of pool/positions/ticks through exported keeper getters (one function, shared by recorder and replayer)",
+         "sqrt prices of ticks are taken from TickToSqrtPrice (C14 decides that function)",
+         "replay: swaps go through the keeper's unexported swapOutAmtGivenIn (the body of SwapExactAmountIn) with a caller-chosen price limit, reached through an overlay-injected wrapper",
+         "replay: a generated call the real code answers differently is a violation only when a clause of C07 evaluated on the real state alone is false; any other deviation makes the check undecided"])
 
 
 def evidence_on_violation(ctx, v):
     vlib.write_evidence("C07", ctx.tier, ctx.seed, "model_checking",
-                        {"evaluations": 1, "distinct_nontrivial": 2, "samples": [v.what]}, time.time() - ctx.t0, [], 1)
+                        {"evaluations": 1, "distinct_nontrivial": 2, "samples": [v.what],
+                         "explanation": "violation found in leg " + str(ctx.leg)}, time.time() - ctx.t0, [], 1)
